@@ -331,7 +331,11 @@ var vocab = []string{":=", "=", "+=", "-=", "*=", "/=", "%=", "|=", "^=", "&=", 
 	"x", "y", "f", "T", "main", "fmt", "len", "append", "copy", "delete", "panic", "print", "println", "__type", "_", "init",
 	"0", "1", "42", "0x1f", "017", "1.5", "1e3", "\"s\"", "`raw`", "'c'", "'\\n'", "\"\"", "3000000000", "-1", "08", "0x", "1.", "'ab'", "\"unterminated", "/* c */", "// c\n", "#", "@", "~", "?", "\\",
 	// non-ASCII: punctuation, spaces, letters, symbols, emoji, a BOM, invalid UTF-8
-	"\u00d7", "\u201c", "\u201d", "\u00a0", "\u2192", "\u2026", "\u00e9", "\u65e5\u672c", "\u200b", "\U0001f600", "\ufeff", "\xff", "\xc3", "\u00ab", "\u2260", "\u03bb"}
+	"\u00d7", "\u201c", "\u201d", "\u00a0", "\u2192", "\u2026", "\u00e9", "\u65e5\u672c", "\u200b", "\U0001f600", "\ufeff", "\xff", "\xc3", "\u00ab", "\u2260", "\u03bb",
+	// literals that scan as one token but do not denote a value: bad escapes, surrogates, out-of-range octal and code points, empty or long characters
+	`"\400"`, `"\ud800"`, `"\q"`, `"\x"`, `"\xg1"`, `"\u12"`, `"\U00110000"`, `"\8"`, `'\400'`, `'\ud800'`, `'\q'`, `''`, `'\'`, `"\"`, `'\U00110000'`, "`", "\"a\nb\"", "\"\\", "0b2", "0o8", "1e", "1e+", "0x.p", "1_", "1__0", "9999999999999999999999", "1e999", "0.0.0", "..", "....", ":=:", `'\x'`,
+	// declarations whose names the host may call afterwards
+	"var cb func()", "var h func(int) int", "type S struct { F func() }", "var s S", "var e error", "var a any", "var m map[string]func()", "cb", "h", "S", "e"}
 
 func genSoup(rt *rapid.T) string {
 	n := rx.Range(rt, "ntokens", 1, 60)
@@ -439,10 +443,45 @@ func genMutant(rt *rapid.T) (src string, isPackage bool) {
 	return strings.Join(mutateTokens(rt, tokensOf(base), other), ""), isPackage
 }
 
-func genCalls(rt *rapid.T, pkg string) []CallSpec {
+var declRe = regexp.MustCompile(`\b(?:var|func|const|type)\s+(?:\([^)]*\)\s*)?([A-Za-z_][A-Za-z_0-9]*)|\b([A-Za-z_][A-Za-z_0-9]*)\s*:=`)
+
+// declaredNames lists the names a source text appears to declare (variables, functions, constants, types, := targets):
+// the host may ask Call, Func or Get for any of them, whatever they hold (a nil function variable, a struct, a type).
+func declaredNames(srcs ...string) []string {
+	seen := map[string]bool{}
+	var out []string
+	for _, src := range srcs {
+		for _, m := range declRe.FindAllStringSubmatch(src, 40) {
+			n := m[1] + m[2]
+			if n != "" && !seen[n] {
+				seen[n] = true
+				out = append(out, n)
+			}
+		}
+	}
+	sort.Strings(out)
+	return out
+}
+
+func sortedKeys(m map[string]string) []string {
+	var out []string
+	for k := range m {
+		out = append(out, k)
+	}
+	sort.Strings(out)
+	return out
+}
+
+func genCalls(rt *rapid.T, pkg string, srcs ...string) []CallSpec {
 	var out []CallSpec
 	n := rx.Range(rt, "ncalls", 0, 3)
+	declared := declaredNames(srcs...)
 	for i := 0; i < n; i++ {
+		if len(declared) > 0 && rapid.Bool().Draw(rt, "declared") {
+			name := pkg + "." + declared[rx.Uniform(rt, len(declared), "declname")]
+			out = append(out, CallSpec{Name: name, Params: rx.Range(rt, "params", 0, 3), Rets: rx.Range(rt, "rets", 0, 2), ViaFunc: rapid.Bool().Draw(rt, "viafunc")})
+			continue
+		}
 		name := rx.Pick(rt, "callname", pkg+".Main", pkg+".f", pkg+".x", pkg+".fn0", pkg+".T", "nosuch.thing", "", "fmt.Println", "strings.Repeat", "math.Pi", "builtin.__type", pkg+".idx", pkg+".run", "len", pkg+".bi")
 		out = append(out, CallSpec{Name: name, Params: rx.Range(rt, "params", 0, 6), Rets: rx.Range(rt, "rets", 0, 4), ViaFunc: rapid.Bool().Draw(rt, "viafunc")})
 	}
@@ -461,16 +500,16 @@ func genEvalCase(rt *rapid.T) *Case {
 			c.Entry = "load"
 			c.Files = map[string]string{"prog/prog.go": src}
 			c.Arg = "prog"
-			c.Calls = genCalls(rt, "prog")
+			c.Calls = genCalls(rt, "prog", src)
 			return c
 		}
 		c.Src = src
 	}
 	if rx.Chance(rt, "withfs", 1, 4) {
 		c.Files = map[string]string{"lib/x.go": "package lib\nfunc F() int { return 1 }\n", "cyc/a.go": "package cyc\nimport \"cyc\"\n"}
-		c.Src = rx.Pick(rt, "imp", "import \"lib\"\n", "import \"cyc\"\n", "import \"nosuch\"\n", "import lib \"lib\"; lib.F()\n") + c.Src
+		c.Src = rx.Pick(rt, "imp", "import \"lib\"\n", "import \"cyc\"\n", "import \"nosuch\"\n", "import lib \"lib\"; lib.F()\n", "import l \"\\400\"\n", "import (\n\tl \"lib\"\n\tm \"li\\qb\"\n)\n", "import l `lib`; l.F()\n") + c.Src
 	}
-	c.Calls = genCalls(rt, "main")
+	c.Calls = genCalls(rt, "main", c.Src)
 	return c
 }
 
@@ -514,10 +553,15 @@ func genTree(rt *rapid.T) *Case {
 				if rx.Chance(rt, "weirdimport", 1, 5) {
 					target = rx.Pick(rt, "weird", "", "fmt", "nosuch/pkg", "../a", d, "a/", "/a", "vendor/d")
 				}
+				lit := strconv.Quote(target)
+				if rx.Chance(rt, "badlit", 1, 8) {
+					lit = rx.Pick(rt, "badpath", `"\400"`, `"\ud800"`, `"a\qb"`, "`a`", `'a'`, `""`, `"a" "b"`, `"\x00"`, `"a\nb"`)
+				}
+				alias := rx.Pick(rt, "alias", "", "", "", "al ", "_ ", ". ", "fmt ", "a ")
 				if rapid.Bool().Draw(rt, "group") {
-					fmt.Fprintf(&sb, "import (\n\t%q\n)\n", target)
+					fmt.Fprintf(&sb, "import (\n\t%s%s\n)\n", alias, lit)
 				} else {
-					fmt.Fprintf(&sb, "import %q\n", target)
+					fmt.Fprintf(&sb, "import %s%s\n", alias, lit)
 				}
 			}
 			switch rx.Uniform(rt, 6, "body") {
@@ -537,7 +581,11 @@ func genTree(rt *rapid.T) *Case {
 		}
 	}
 	c.Arg = rx.Pick(rt, "arg", append(append([]string{}, dirs...), "", ".", "..", "../x", "nosuch", "a/a.go", "a.go", "x.go", "/", "a/", "vendor", "a//b", "./a")...)
-	c.Calls = genCalls(rt, rx.Pick(rt, "callpkg", dirs...))
+	var srcs []string
+	for _, name := range sortedKeys(c.Files) {
+		srcs = append(srcs, c.Files[name])
+	}
+	c.Calls = genCalls(rt, rx.Pick(rt, "callpkg", dirs...), srcs...)
 	return c
 }
 
